@@ -1,12 +1,12 @@
 #!/bin/bash
-# run every check on every stored behaviour-preserving refactoring (preserving/<id>-<v>/patch.diff) in a scratch worktree (16 parallel).
+# run every check on every stored behaviour-preserving refactoring (preserving/<id>-<v>/patch.diff) in a scratch copy of the package (16 parallel).
 # expected: no rc=1 (a VIOLATION on a refactoring that keeps the behaviour is a false alarm); rc=2 = idiom not recognised (no verdict)
 cd /verif; mkdir -p /tmp/evid_scratch
 run_p() { d=$1; n=$(basename $d); id=${n%-*}; wt=/tmp/wtp/$n; rm -rf $wt
-  git -C /repo worktree add -q --detach $wt HEAD 2>/dev/null || { echo "$n WORKTREE-FAILED"; return; }
-  ( cd $wt && git apply $d/patch.diff ) 2>/dev/null || { echo "$n APPLY-FAILED (tree changed)"; git -C /repo worktree remove --force $wt; return; }
+  mkdir -p $wt && cp -r /repo/cryocat $wt/ || { echo "$n COPY-FAILED"; return; }
+  ( cd $wt && git apply $d/patch.diff ) 2>/dev/null || { echo "$n APPLY-FAILED (tree changed)"; rm -rf $wt; return; }
   VERIF_EVIDENCE_DIR=/tmp/evid_scratch/p_$n /verif/check $id --repo $wt > /tmp/evid_scratch/p_$n.log 2>&1; rc=$?
-  echo "$n rc=$rc"; git -C /repo worktree remove --force $wt; }
+  echo "$n rc=$rc"; rm -rf $wt; }
 export -f run_p
 ls -d /verif/preserving/C* | xargs -P 16 -I{} bash -c "run_p {}" | sort > /tmp/evid_scratch/preserving.txt
 grep -c "rc=0" /tmp/evid_scratch/preserving.txt | sed 's/^/silent: /'
